@@ -554,10 +554,17 @@ def prog_commute_join(seed: int, n: int = 12) -> G:
         extra = set(rng.sample(["x", "z"], rng.choice([0, 1]))) - set(ccols) - set(g.cols[t])
         shared = {c for c in ccols if KEY[c] and rng.random() < 0.7}
         fcols = sorted(shared | extra | ({"y"} if rng.random() < 0.2 and "y" not in g.cols[t] else set()))
+        if rng.random() < 0.3:
+            # the fixed relation ALSO has a column of the target that is not a common column - one the existing
+            # operation hides (a projection), replaces, or simply a shared non-key: the join must not be moved to
+            # where one of the two would shadow the other
+            clash = sorted((set(g.cols[t]) | set(ccols)) - {c for c in shared})
+            if clash:
+                fcols = sorted(set(fcols) | {rng.choice(clash)})
         if not fcols:
             continue
         f = g.leaf("e0", cols=fcols, nrows=rng.randint(0, 3), bounds="exact")
-        common = sorted(c for c in (set(fcols) & set(ccols)) if KEY[c])
+        common = sorted(c for c in (set(fcols) & set(ccols)) if KEY[c] and c in shared)
         g.emit(["commutej", f, common, ["plit", "T"], cur, t])
     return g
 
